@@ -4,6 +4,7 @@ import (
 	"encoding/json"
 	"fmt"
 	"reflect"
+	"sort"
 	"strings"
 	"time"
 
@@ -105,6 +106,34 @@ func aimAtServer(req ua.Request, rs *realServer, unique int64) {
 	}
 }
 
+// lookalikes derives never-issued tokens from a live one.
+func lookalikes(live *ua.NodeID) map[string]*ua.NodeID {
+	out := map[string]*ua.NodeID{}
+	ns := live.Namespace()
+	switch live.Type() {
+	case ua.NodeIDTypeTwoByte, ua.NodeIDTypeFourByte, ua.NodeIDTypeNumeric:
+		id := live.IntID()
+		out["live-number-in-namespace+1"] = ua.NewNumericNodeID(ns+1, id)
+		out["live-number-in-namespace-300"] = ua.NewNumericNodeID(300, id)
+		out["live-number-as-string-id"] = ua.NewStringNodeID(ns, fmt.Sprint(id))
+		out["live-number+1"] = ua.NewNumericNodeID(ns, id+1)
+		out["live-number+2^16"] = ua.NewNumericNodeID(ns, id+65536)
+	case ua.NodeIDTypeString:
+		out["live-string-in-namespace+1"] = ua.NewStringNodeID(ns+1, live.StringID())
+		out["live-string-as-opaque-id"] = ua.NewByteStringNodeID(ns, []byte(live.StringID()))
+		out["live-string-prefix"] = ua.NewStringNodeID(ns, live.StringID()[:len(live.StringID())/2])
+		out["live-string-upper-case"] = ua.NewStringNodeID(ns, strings.ToUpper(live.StringID()))
+	case ua.NodeIDTypeGUID:
+		out["live-guid-in-namespace+1"] = ua.NewGUIDNodeID(ns+1, live.StringID())
+		out["live-guid-as-string-id"] = ua.NewStringNodeID(ns, live.StringID())
+		out["live-guid-as-opaque-id"] = ua.NewByteStringNodeID(ns, []byte(live.StringID()))
+	case ua.NodeIDTypeByteString:
+		out["live-opaque-in-namespace+1"] = ua.NewByteStringNodeID(ns+1, []byte(live.StringID()))
+		out["live-opaque-as-string-id"] = ua.NewStringNodeID(ns, live.StringID())
+	}
+	return out
+}
+
 func c35Run(c *fw.Ctx) error {
 	reg := gen.LoadRegistry()
 	types := requestTypes(reg)
@@ -145,14 +174,33 @@ func c35Run(c *fw.Ctx) error {
 	if err != nil {
 		return fmt.Errorf("CreateSession for the not-activated token: %v", err)
 	}
+	// a second server in the same process: its live session tokens are foreign to the server under test
+	other, err := startRealServer(srvCfg{Vars: 1})
+	if err != nil {
+		return fmt.Errorf("second server: %v", err)
+	}
+	defer other.Srv.Close()
+	otherCh, otherTok, err := refpeer.OpenSession(strings.TrimPrefix(other.Endpoint, "opc.tcp://"), other.Endpoint)
+	if err != nil {
+		return fmt.Errorf("session on the second server: %v", err)
+	}
+	defer otherCh.Close()
 	tokens := map[string]*ua.NodeID{
 		"null":          ua.NewTwoByteNodeID(0),
 		"unknown":       ua.NewNumericNodeID(0, 0x7ffffff1),
 		"closed":        closedTok,
 		"not-activated": cs.AuthenticationToken,
-		"other-server":  ua.NewGUIDNodeID(1, "12345678-1234-1234-1234-123456789abc"),
+		"other-server":  otherTok,
+		"made-up-guid":  ua.NewGUIDNodeID(1, "12345678-1234-1234-1234-123456789abc"),
 	}
-	tokNames := []string{"null", "unknown", "closed", "not-activated", "other-server"}
+	tokNames := []string{"null", "unknown", "closed", "not-activated", "other-server", "made-up-guid"}
+	// tokens that were never issued but resemble the live token of the valid session: same identifier in another
+	// namespace, the same identifier under another encoding, neighbours of a numeric identifier
+	for name, t := range lookalikes(goodTok) {
+		tokens[name] = t
+		tokNames = append(tokNames, name)
+	}
+	sort.Strings(tokNames[6:])
 
 	// control: with the valid session a write has its effect (otherwise the experiment observes nothing)
 	wr := &ua.WriteRequest{}
@@ -166,8 +214,17 @@ func c35Run(c *fw.Ctx) error {
 	idx := int64(0)
 	for ti, t := range types {
 		name := t.Type.Elem().Name()
+		switch name {
+		case "CloseSessionRequest", "ActivateSessionRequest", "CreateSessionRequest", "CloseSecureChannelRequest", "OpenSecureChannelRequest":
+			// session and channel management is exempt by the property, and sending it would change the token states
+			// under test (CloseSession deletes the not-activated and foreign sessions, ActivateSession activates them)
+			continue
+		}
 		for _, tn := range tokNames {
 			for k := int64(0); k < reps; k++ {
+				if strings.HasPrefix(tn, "live-") && name != "WriteRequest" && name != "ReadRequest" && name != "CreateSubscriptionRequest" && name != "BrowseRequest" && (c.Quick() || k > 0) {
+					continue
+				}
 				i := idx
 				idx++
 				if int(i%int64(c.NBatch)) != c.Batch || i < c.Resume {
@@ -205,6 +262,7 @@ func c35Run(c *fw.Ctx) error {
 						c.Class("outcome:exempt-type", 1)
 					case sessionError(st):
 						c.Class("outcome:session-error", 1)
+						c.Class("session-error:"+tn+":"+fmt.Sprintf("%#x", uint32(st)), 1)
 					case st == ua.StatusBadServiceUnsupported:
 						c.Class("outcome:service-unsupported", 1)
 					default:
@@ -230,7 +288,7 @@ func init() {
 	fw.Register("C35", fw.Spec{
 		Plan: func(tier string) fw.Plan {
 			p := fw.Plan{Batches: 4, TimeoutS: 900, MinNontrivial: 200, Level: "exploration",
-				Rule:        "every request type registered in the tree under test x token state {null, unknown, closed, created-not-activated, foreign} x generated bodies (half of them aimed at a visible effect: write a unique value, create a subscription) sent by the independent scripted client over a bare secure channel to the real server; oracle: the answer is a session error (or BadServiceUnsupported) and values / subscription table / monitored item table (inspected in-process) are unchanged; a write under a valid session is the control; distinct = (type, token state, body index)",
+				Rule:        "every request type registered in the tree under test x token state {null, unknown, closed, created-not-activated, live token of a second server in the same process, made-up GUID, never-issued look-alikes of a live token: same identifier in another namespace / under another id encoding / neighbouring numbers} x generated bodies (half of them aimed at a visible effect: write a unique value, create a subscription) sent by the independent scripted client over a bare secure channel to the real server; oracle: the answer is a session error (or BadServiceUnsupported) and values / subscription table / monitored item table (inspected in-process) are unchanged; a write under a valid session is the control; distinct = (type, token state, body index)",
 				Assumptions: []string{"FindServers*, GetEndpoints, RegisterServer*, Create/Activate/CloseSession, Open/CloseSecureChannel and Cancel are the exempt discovery / session services"}}
 			if tier == "thorough" {
 				p.Batches, p.TimeoutS, p.MinNontrivial = 16, 3000, 20000
